@@ -852,8 +852,11 @@ class Functor:
 
     def __call__(self, arrow):
         if isinstance(arrow, Sum):
+            terms = []  # the image of a term may itself be a formal sum
+            for image in map(self, arrow):
+                terms += image.terms if isinstance(image, Sum) else [image]
             return self.ar_factory.sum(
-                list(map(self, arrow)), self(arrow.dom), self(arrow.cod))
+                terms, self(arrow.dom), self(arrow.cod))
         if isinstance(arrow, Bubble):
             return self(arrow.inside).bubble(
                 dom=self(arrow.dom), cod=self(arrow.cod))
